@@ -335,8 +335,12 @@ func (h *H) in(src *net.UDPAddr, q *query) {
 		}
 	}
 	ih := ""
-	if q.ih != nil && q.hasA {
-		ih = sim.Hex(q.ih[:])
+	if q.hasA {
+		// an absent info_hash decodes to the all-zero ID
+		ih = sim.Hex(make([]byte, 20))
+		if q.ih != nil {
+			ih = sim.Hex(q.ih[:])
+		}
 	}
 	method := q.method
 	if q.noQ {
